@@ -201,7 +201,7 @@ pub fn run(tier: &str, seed: u64, out: &mut Out) {
     // pathological shapes in a child process with a 2 MiB stack
     let deep_n = if tier == "quick" { 200_000 } else { 1_000_000 };
     let exe = std::env::current_exe().unwrap();
-    for kind in 0..14u64 {
+    for kind in 0..27u64 {
         for api in ["v", "d", "i", "n", "ve"] {
             if tier == "quick" && (api == "i" || api == "n") && kind % 3 != 0 {
                 continue;
